@@ -4,6 +4,14 @@ Programs are kept structured ({"id","scan","comps",...}) and rendered to text
 only when handed to csvpath, so the shrinker can drop components, members and
 rows.  Everything is drawn from the rng passed in; nothing else."""
 import copy
+import json
+import os
+
+with open(os.path.join(os.path.dirname(os.path.abspath(__file__)), "zoo.json"), encoding="utf-8") as _f:
+    ZOO = json.load(_f)
+# components whose output mentions the physical path of the file (differs between a standalone run and a named-file run)
+ZOO_PATH_DEPENDENT = [c for c in ZOO if "run_table" in c]
+ZOO_SAFE = [c for c in ZOO if c not in ZOO_PATH_DEPENDENT]
 
 WORDS = ["a", "b", "c", "FAIL"]
 NASTY = ['x,y', 'say "hi"', "two\nlines", "ünï", "semi;colon", "pipe|d", " lead", "'single'", "q\"mid"]
@@ -109,8 +117,20 @@ def scan(rng, n):
     return f"{a}+{a + 2}"
 
 
-def gen_member(rng, hdr, nlines, ident, *, max_comps=5, modes=None):
+def zoo_comp(rng, hdr, i, pool=None):
+    """A component from the verified function zoo, bound to this file's columns."""
+    c = rng.choice(pool or ZOO_SAFE)
+    idx = list(range(1, len(hdr)))
+    h = rng.choice(idx)
+    g = rng.choice(idx)
+    return c.replace("{i}", str(i)).replace("{h}", str(h)).replace("{g}", str(g))
+
+
+def gen_member(rng, hdr, nlines, ident, *, max_comps=5, modes=None, zoo_p=0.0, zoo_pool=None):
     comps = [comp(rng, hdr, nlines, i) for i in range(rng.randint(1, max_comps))]
+    if zoo_p and rng.random() < zoo_p:
+        for z in range(rng.randint(1, 3)):
+            comps.insert(rng.randint(0, len(comps)), zoo_comp(rng, hdr, 20 + z, zoo_pool))
     m = {"id": ident, "scan": scan(rng, nlines), "comps": comps}
     if modes:
         m["modes"] = dict(modes)
